@@ -87,8 +87,9 @@ class Atom:
         """
         self.bonded_atoms: List[Atom] = []
         self.set_properties(line)
-        fmt = "{r.name:3s}{r.res_num:>4d}{r.chain_id:>2s}"
-        self.residue_label = fmt.format(r=self)
+        # residues may differ in their insertion code only (e.g. 52 and 52A)
+        fmt = "{r.name:3s}{r.res_num:>4d}{r.chain_id:>2s}{icode:s}"
+        self.residue_label = fmt.format(r=self, icode=self.icode.strip())
 
     def set_properties(self, line: Optional[str]):
         """Line from PDB file to set properties of atom.
